@@ -247,11 +247,14 @@ def report(rep, flavour, h, m, N, r, present, hp, order, doc, what):
     dv, rw = z3.is_true(m.eval(doc.doc_valid, True)), z3.is_true(m.eval(doc.rest_is_ws, True))
     # re-materialise a body with the abstract shape, keeping chunk boundaries and the total length class relative to N
     text = (b'1' if dv else b'x') + (b' ' if rw else b' y')
-    live = [i for i, x in enumerate(chunks) if x is not None]
+    # empty chunks of the model stay empty (an implementation may treat them specially); the text goes to the non-empty ones
+    live = [i for i, x in enumerate(chunks) if x] or [i for i, x in enumerate(chunks) if x is not None]
     parts, k = [], 0
     for i, x in enumerate(chunks):
         if x is None:
             parts.append(None)
+        elif x == '' and i not in live:
+            parts.append('')
         elif live and i == live[-1]:
             parts.append(text[k:].hex())
         else:
